@@ -6,6 +6,7 @@
   Part 1: the semantic relation and the lemmas for the individual clauses of the visitor.
 -/
 import Fadl.Lemmas.SimpSem
+import Fadl.Props.C02
 namespace Fadl
 set_option linter.unusedSimpArgs false
 
@@ -563,5 +564,451 @@ theorem sem_first_method (hw : WorldOK w) {st : SStack} (seq : Expr) (rest : Lis
       | error e => exact meth_recv_error _ m envM e h1 _ _ _ _ _
       | ok v => obtain ⟨_, h', _⟩ := first_many_fails (w := w) seq b rest' k1 k2 envM (.error .index) v h1; cases h'
   · intro _ envM env _; exact headSem_other rfl
+
+/-! ### helpers for the operator clauses -/
+
+def isOp3 (op : String) : Prop := op = "Select" ∨ op = "Where" ∨ op = "SelectMany"
+
+theorem isOp3.builtin {op : String} (h : isOp3 op) : op ∈ builtinOps := by
+  rcases h with rfl | rfl | rfl <;> decide
+
+theorem isOp3.notAgg {op : String} (h : isOp3 op) : op ≠ "Aggregate" := by
+  rcases h with rfl | rfl | rfl <;> decide
+
+theorem den_op_call_kw {op : String} (hop : isOp3 op) (a b : Expr) (kwn : List String) (kwv : List Expr) (env : Env) :
+    denLz w (.call (.name op) [a, b] kwn kwv) env = denLz w (fcall op [a, b]) env := by
+  simp only [fcall, denLz, denHeadLz, denLLz, denLamLLz, callSemLz, List.tail_cons, fnCallLz, hop.builtin, if_true]
+
+theorem op_many_fails {op : String} (hop : isOp3 op) (a b c : Expr) (rest : List Expr) (kwn : List String) (kwv : List Expr)
+    (env : Env) (r : Res) : RLe (denLz w (.call (.name op) (a :: b :: c :: rest) kwn kwv) env) r := by
+  intro out ho
+  exfalso
+  simp only [denLz, denHeadLz, denLLz, denLamLLz, callSemLz, List.tail_cons, fnCallLz, hop.builtin, if_true] at ho
+  cases rest with
+  | nil => simp [hop.notAgg, denLLz, denLamLLz] at ho
+  | cons d rest3 => simp [denLLz, denLamLLz] at ho
+
+/-- operator applied to related sources and related lambdas -/
+theorem op2_transfer {op : String} (hop : isOp3 op) {a a' l l' : Expr} {envA envB : Env}
+    (ha : DRel envA envB (denLz w a) (denLz w a')) (hl : LamRel envA envB (denLamLz w l) (denLamLz w l')) :
+    RLe (denLz w (fcall op [a, l]) envA) (denLz w (fcall op [a', l']) envB) := by
+  rw [denLz_op2 w envA op hop, denLz_op2 w envB op hop]
+  exact src_seq_rel ha (fun vs vs' hv hv' => seqOp2Lz_mono op hl.1 hv hv')
+
+theorem drel_self (hw : WorldOK w) (e : Expr) (E : Env) (hE : EnvLe E E) : DRel E E (denLz w e) (denLz w e) :=
+  ⟨denLz_self w hw e E hE, denLz_self w hw e E hE⟩
+
+/-- `make_Select` drops an identity selection -/
+theorem makeSelect_le (hw : WorldOK w) (src sel : Expr) (E : Env) (hE : EnvLe E E) :
+    RLe (denLz w (fcall "Select" [src, sel]) E) (denLz w (makeSelect src sel) E) := by
+  unfold makeSelect
+  split
+  · rename_i hid
+    obtain ⟨x, rfl⟩ := lambdaIsIdentity_sound sel hid
+    intro out ho
+    rw [denLz_op2 w E "Select" (Or.inl rfl)] at ho
+    cases hs : denLz w src E with
+    | error e => simp [hs, bind, Except.bind] at ho
+    | ok s =>
+      cases hv : asSeq s with
+      | error e => simp [hs, hv, bind, Except.bind] at ho
+      | ok vs =>
+        cases s <;> simp [asSeq] at hv
+        subst hv
+        simp only [hs, bind, Except.bind, asSeq, seqOp2Lz_select, Except.ok.injEq] at ho
+        have hid' : applyLam1 (denLamLz w (.lam [x] (.name x))) E = fun u => .ok u := by
+          funext u; simp [denLamLz, applyLam1, denLz, Env.upd]
+        rw [hid', sel_id] at ho
+        subst ho
+        exact ⟨_, rfl, denLz_wf w hw src E hE _ hs⟩
+  · exact denLz_self w hw _ E hE
+
+/-- a lambda and its copy with fresh parameter names compute the same function -/
+theorem rename_lamRel (hw : WorldOK w) {ns ps : List String} {b : Expr} {st : SStack} (hf : FreshFor ns ps b st)
+    (E : Env) (hE : EnvLe E E) :
+    LamRel E E (denLamLz w (.lam ps b)) (denLamLz w (.lam ns (renameNames ((ps.zip ns).reverse) b))) := by
+  have hself := selfLam hw (.lam ns (renameNames ((ps.zip ns).reverse) b)) E hE
+  refine ⟨?_, hself.1, ?_, hself.2.2.1⟩
+  · match ps, ns, hf with
+    | [x], [n], hf => simp only [denLamLz]; exact fnle_of_rename1 w hw hf E hE
+    | [], _, _ => exact fun _ _ _ _ => RLe.error _ _
+    | _ :: _ :: _, _, _ => exact fun _ _ _ _ => RLe.error _ _
+    | [x], [], hf => exact absurd hf.len (by simp)
+    | [x], _ :: _ :: _, hf => exact absurd hf.len (by simp)
+  · match ps, ns, hf with
+    | [x, y], [n, m], hf => simp only [denLamLz]; exact fnle2_of_rename2 w hw hf E hE
+    | [], _, _ => exact fun _ _ _ _ _ _ _ _ => RLe.error _ _
+    | [_], _, _ => exact fun _ _ _ _ _ _ _ _ => RLe.error _ _
+    | _ :: _ :: _ :: _, _, _ => exact fun _ _ _ _ _ _ _ _ => RLe.error _ _
+    | [x, y], [], hf => exact absurd hf.len (by simp)
+    | [x, y], [_], hf => exact absurd hf.len (by simp)
+    | [x, y], _ :: _ :: _ :: _, hf => exact absurd hf.len (by simp)
+
+/-- same parameters, related bodies -/
+theorem lam_body_le (hw : WorldOK w) (ps : List String) (b b' : Expr)
+    (hb : ∀ E, EnvLe E E → RLe (denLz w b E) (denLz w b' E)) (E : Env) (hE : EnvLe E E) :
+    LamRel E E (denLamLz w (.lam ps b)) (denLamLz w (.lam ps b')) := by
+  have hself := selfLam hw (.lam ps b') E hE
+  refine ⟨?_, hself.1, ?_, hself.2.2.1⟩
+  · intro u u' hu hu'
+    match ps with
+    | [x] =>
+      simp only [denLamLz, applyLam1]
+      exact RLe.trans (denLz_mono w hw b _ _ (hE.upd x hu) (hE.upd x hu')) (hb _ (hE.upd x hu'))
+    | [] => exact RLe.error _ _
+    | _ :: _ :: _ => exact RLe.error _ _
+  · intro a a' u u' ha ha' hu hu'
+    match ps with
+    | [x, y] =>
+      simp only [denLamLz, applyLam2]
+      split
+      · exact RLe.error _ _
+      · exact RLe.trans (denLz_mono w hw b _ _ ((hE.upd x ha).upd y hu) ((hE.upd x ha').upd y hu'))
+          (hb _ ((hE.upd x ha').upd y hu'))
+    | [] => exact RLe.error _ _
+    | [_] => exact RLe.error _ _
+    | _ :: _ :: _ :: _ => exact RLe.error _ _
+
+/-! ### free names of the pieces of a call -/
+
+theorem fv_fcall2_left {op : String} {a b : Expr} {x : String} (h : x ∈ fv a) : x ∈ fv (fcall op [a, b]) := by
+  simp only [fv, fcall, freeNames, freeNamesL, List.mem_append]
+  exact Or.inl (Or.inr (Or.inl h))
+
+theorem fv_call_arg0 {f a : Expr} {rest : List Expr} {kwn : List String} {kwv : List Expr} {x : String} (h : x ∈ fv a) :
+    x ∈ fv (.call f (a :: rest) kwn kwv) := by
+  simp only [fv, freeNames, freeNamesL, List.mem_append]
+  exact Or.inl (Or.inr (Or.inl h))
+
+theorem fv_call_arg1 {f a b : Expr} {rest : List Expr} {kwn : List String} {kwv : List Expr} {x : String} (h : x ∈ fv b) :
+    x ∈ fv (.call f (a :: b :: rest) kwn kwv) := by
+  simp only [fv, freeNames, freeNamesL, List.mem_append]
+  exact Or.inl (Or.inr (Or.inr (Or.inl h)))
+
+theorem keyFree_sub {st : SStack} {e e' : Expr} (h : keyFree st e = true) (hsub : ∀ x, x ∈ fv e' → x ∈ fv e) :
+    keyFree st e' = true := by
+  rw [keyFree, disjoint_iff] at h ⊢
+  exact fun k hk hx => h k hk (hsub k hx)
+
+/-! ### `convolute` -/
+
+structure ConvOK (st : SStack) (g f : Expr) (conv : Expr) : Prop where
+  shape : ∃ gps gb fps fb gps' fps' x, g = .lam gps gb ∧ f = .lam fps fb ∧
+    FreshFor gps' gps gb st ∧ FreshFor fps' fps fb st ∧
+    conv = convLam x (.lam gps' (renameNames ((gps.zip gps').reverse) gb)) (.lam fps' (renameNames ((fps.zip fps').reverse) fb)) ∧
+    x ∉ fv (.lam gps' (renameNames ((gps.zip gps').reverse) gb)) ∧
+    x ∉ fv (.lam fps' (renameNames ((fps.zip fps').reverse) fb)) ∧ x ∉ fv g ∧ x ∉ fv f
+
+theorem convoluteCk_ok {g f : Expr} {c : Nat} {st : SStack} {conv : Expr} {c' : Nat}
+    (h : convoluteCk g f c st = .ok (conv, c')) : ConvOK st g f conv := by
+  unfold convoluteCk at h
+  cases g <;> try (simp at h)
+  rename_i gps gb
+  cases f <;> try (simp at h)
+  rename_i fps fb
+  cases h1 : makeArgsUniqueCk gps gb c st with
+  | error e => simp [h1, bind, Except.bind] at h
+  | ok r1 =>
+    obtain ⟨gps', gb', c1⟩ := r1
+    simp only [h1, bind, Except.bind] at h
+    cases h2 : makeArgsUniqueCk fps fb c1 st with
+    | error e => simp [h2] at h
+    | ok r2 =>
+      obtain ⟨fps', fb', c2⟩ := r2
+      simp only [h2] at h
+      obtain ⟨rfl, _, _, hf1⟩ := makeArgsUniqueCk_ok h1
+      obtain ⟨rfl, _, _, hf2⟩ := makeArgsUniqueCk_ok h2
+      split at h
+      · rename_i hg
+        simp only [Except.ok.injEq, Prod.mk.injEq] at h
+        obtain ⟨⟨⟨⟨⟨g1, g2⟩, _⟩, _⟩, g5⟩, g6⟩ := hg
+        exact ⟨gps, gb, fps, fb, gps', fps', argName c2, rfl, rfl, hf1, hf2, h.1.symm, g1, g2, g5, g6⟩
+      · cases h
+
+/-- the composition built by `convolute` computes the composition of the two functions (as refinements) -/
+theorem conv_fnle (hw : WorldOK w) {st : SStack} {g f conv : Expr} (hc : ConvOK st g f conv) (E : Env) (hE : EnvLe E E) :
+    FnLe (fun u => applyLam1 (denLamLz w f) E u >>= applyLam1 (denLamLz w g) E) (applyLam1 (denLamLz w conv) E) := by
+  obtain ⟨gps, gb, fps, fb, gps', fps', x, rfl, rfl, hf1, hf2, rfl, hx1, hx2, _, _⟩ := hc.shape
+  intro u u' hu hu'
+  rw [convLam_sem w E x gps' fps' _ _ hx2 hx1 u']
+  have hF := (rename_lamRel hw hf2 E hE).1
+  have hG := (rename_lamRel hw hf1 E hE).1
+  have hF' := (rename_lamRel hw hf2 E hE).2.1
+  exact RLe.bind2 (hF u u' hu hu') (hF' u' u' hu' hu') (fun r r' hr hr' => hG r r' hr hr')
+
+/-! ### `Select` -/
+
+/-- a call of an operator by name: with exactly two arguments it is `fcall`, with more it fails -/
+theorem op_call_cases {op : String} (hop : isOp3 op) (a b : Expr) (rest : List Expr) (kwn : List String) (kwv : List Expr)
+    (env : Env) (r : Res) (h : RLe (denLz w (fcall op [a, b]) env) r) :
+    RLe (denLz w (.call (.name op) (a :: b :: rest) kwn kwv) env) r := by
+  cases rest with
+  | nil => rw [den_op_call_kw hop]; exact h
+  | cons c rest' => exact op_many_fails hop a b c rest' kwn kwv env r
+
+/-- the source of an operator, simplified to `parent` (which mentions no key), in the environment of the original -/
+theorem parent_drel (hw : WorldOK w) {st : SStack} {source parent : Expr} (hs : Sem w st source parent)
+    (hk : keyFree st parent = true) {envM env : Env} (hr : EnvRel w st envM env) :
+    DRel envM envM (denLz w source) (denLz w parent) := by
+  refine ⟨?_, denLz_self w hw parent envM hr.wfM⟩
+  rw [hr.coincide parent hk]
+  exact hs.val envM env hr
+
+/-- default clause: `Select(source, transform)` with a source that is no `Select` / `SelectMany` -/
+theorem select_default (hw : WorldOK w) {st : SStack} {source transform parent sel : Expr}
+    (hs : Sem w st source parent) (ht : Sem w st transform sel) {envM env : Env} (hr : EnvRel w st envM env) :
+    RLe (denLz w (fcall "Select" [source, transform]) envM) (denLz w (makeSelect parent sel) env) :=
+  RLe.trans (op2_transfer (Or.inl rfl) (hs.drel hw hr) (ht.lamrel hw hr)) (makeSelect_le hw parent sel env hr.wf)
+
+/-- `Select(Select(src, f), transform)`: one `Select` with the composition -/
+theorem select_select (hw : WorldOK w) {st : SStack} {source transform src f conv sel : Expr} (k1 : List String) (k2 : List Expr)
+    (prest : List Expr)
+    (hs : Sem w st source (.call (.name "Select") (src :: f :: prest) k1 k2))
+    (hk : keyFree st (.call (.name "Select") (src :: f :: prest) k1 k2) = true)
+    (hc : ConvOK st transform f conv) (ih : Sem w st conv sel) {envM env : Env} (hr : EnvRel w st envM env) :
+    RLe (denLz w (fcall "Select" [source, transform]) envM) (denLz w (makeSelect src sel) env) := by
+  obtain ⟨gps, gb, fps, fb, gps', fps', x, rfl, rfl, hf1, hf2, rfl, hx1, hx2, _, _⟩ := hc.shape
+  have hsrcK : keyFree st src = true := keyFree_sub hk (fun y hy => fv_call_arg0 hy)
+  have hpd := parent_drel hw hs hk hr
+  -- 1. source ⊑ Select(src, f'') in the environment of the original
+  have h1 : DRel envM envM (denLz w source) (denLz w (fcall "Select" [src, .lam fps' (renameNames ((fps.zip fps').reverse) fb)])) := by
+    refine ⟨RLe.trans hpd.1 ?_, denLz_self w hw _ envM hr.wfM⟩
+    apply op_call_cases (Or.inl rfl)
+    exact op2_transfer (Or.inl rfl) (drel_self hw src envM hr.wfM) (rename_lamRel hw hf2 envM hr.wfM)
+  -- 2. the outer Select with the renamed transform
+  have h2 := op2_transfer (op := "Select") (Or.inl rfl) h1 (rename_lamRel hw hf1 envM hr.wfM)
+  -- 3. fusion
+  rw [rule_select_select w envM src x gps' fps' _ _ hx2 hx1 hw hr.wfM] at h2
+  -- 4. into the environment of the result
+  have hsrc : DRel envM env (denLz w src) (denLz w src) := by
+    refine ⟨?_, denLz_self w hw src env hr.wf⟩
+    rw [hr.coincide src hsrcK]; exact denLz_self w hw src env hr.wf
+  have h4 := op2_transfer (op := "Select") (Or.inl rfl) hsrc (ih.lamrel hw hr)
+  exact RLe.trans h2 (RLe.trans h4 (makeSelect_le hw src sel env hr.wf))
+
+/-- `Select(SelectMany(src, f), transform)`: the `Select` moves under the `SelectMany` -/
+theorem select_selectMany (hw : WorldOK w) {st : SStack} {source transform src fb out : Expr} (fps : List String)
+    (k1 : List String) (k2 : List Expr) (prest : List Expr)
+    (hs : Sem w st source (.call (.name "SelectMany") (src :: .lam fps fb :: prest) k1 k2))
+    (hk : keyFree st (.call (.name "SelectMany") (src :: .lam fps fb :: prest) k1 k2) = true)
+    (hd : ∀ p ∈ fps, p ∉ fv transform)
+    (ih : Sem w st (fcall "SelectMany" [src, .lam fps (makeSelect fb transform)]) out) {envM env : Env} (hr : EnvRel w st envM env) :
+    RLe (denLz w (fcall "Select" [source, transform]) envM) (denLz w out env) := by
+  have hpd := parent_drel hw hs hk hr
+  have h1 : DRel envM envM (denLz w source) (denLz w (fcall "SelectMany" [src, .lam fps fb])) := by
+    refine ⟨RLe.trans hpd.1 ?_, denLz_self w hw _ envM hr.wfM⟩
+    apply op_call_cases (Or.inr (Or.inr rfl))
+    exact denLz_self w hw _ envM hr.wfM
+  have h2 := op2_transfer (op := "Select") (Or.inl rfl) h1 (selfLam hw transform envM hr.wfM)
+  rw [rule_select_selectMany w envM src fps fb transform hd] at h2
+  -- `make_Select` under the lambda
+  have h3 : RLe (denLz w (fcall "SelectMany" [src, .lam fps (fcall "Select" [fb, transform])]) envM)
+      (denLz w (fcall "SelectMany" [src, .lam fps (makeSelect fb transform)]) envM) :=
+    op2_transfer (Or.inr (Or.inr rfl)) (drel_self hw src envM hr.wfM)
+      (lam_body_le hw fps _ _ (fun E hE => makeSelect_le hw fb transform E hE) envM hr.wfM)
+  exact RLe.trans h2 (RLe.trans h3 (ih.val envM env hr))
+
+/-! ### `SelectMany` -/
+
+theorem selectMany_default (hw : WorldOK w) {st : SStack} {source selection parent sel : Expr}
+    (hs : Sem w st source parent) (ht : Sem w st selection sel) {envM env : Env} (hr : EnvRel w st envM env) :
+    RLe (denLz w (fcall "SelectMany" [source, selection]) envM) (denLz w (fcall "SelectMany" [parent, sel]) env) :=
+  op2_transfer (Or.inr (Or.inr rfl)) (hs.drel hw hr) (ht.lamrel hw hr)
+
+theorem keyFree_arg0 {st : SStack} {f a : Expr} {rest : List Expr} {k1 : List String} {k2 : List Expr}
+    (hk : keyFree st (.call f (a :: rest) k1 k2) = true) : keyFree st a = true :=
+  keyFree_sub hk (fun _ hy => fv_call_arg0 hy)
+
+theorem keyFree_arg1 {st : SStack} {f a b : Expr} {rest : List Expr} {k1 : List String} {k2 : List Expr}
+    (hk : keyFree st (.call f (a :: b :: rest) k1 k2) = true) : keyFree st b = true :=
+  keyFree_sub hk (fun _ hy => fv_call_arg1 hy)
+
+theorem src_drel (hw : WorldOK w) {st : SStack} {src : Expr} (hk : keyFree st src = true) {envM env : Env}
+    (hr : EnvRel w st envM env) : DRel envM env (denLz w src) (denLz w src) := by
+  refine ⟨?_, denLz_self w hw src env hr.wf⟩
+  rw [hr.coincide src hk]; exact denLz_self w hw src env hr.wf
+
+/-- `SelectMany(Select(seq, f), selection)`: one `SelectMany` with the composition -/
+theorem selectMany_select (hw : WorldOK w) {st : SStack} {source selection seq f conv sel : Expr} (k1 : List String) (k2 : List Expr)
+    (hs : Sem w st source (.call (.name "Select") [seq, f] k1 k2))
+    (hk : keyFree st (.call (.name "Select") [seq, f] k1 k2) = true)
+    (hc : ConvOK st selection f conv) (ih : Sem w st conv sel) {envM env : Env} (hr : EnvRel w st envM env) :
+    RLe (denLz w (fcall "SelectMany" [source, selection]) envM) (denLz w (fcall "SelectMany" [seq, sel]) env) := by
+  obtain ⟨gps, gb, fps, fb, gps', fps', x, rfl, rfl, hf1, hf2, rfl, hx1, hx2, _, _⟩ := hc.shape
+  have hpd := parent_drel hw hs hk hr
+  have h1 : DRel envM envM (denLz w source) (denLz w (fcall "Select" [seq, .lam fps' (renameNames ((fps.zip fps').reverse) fb)])) := by
+    refine ⟨RLe.trans hpd.1 ?_, denLz_self w hw _ envM hr.wfM⟩
+    rw [den_op_call_kw (Or.inl rfl)]
+    exact op2_transfer (Or.inl rfl) (drel_self hw seq envM hr.wfM) (rename_lamRel hw hf2 envM hr.wfM)
+  have h2 := op2_transfer (op := "SelectMany") (Or.inr (Or.inr rfl)) h1 (rename_lamRel hw hf1 envM hr.wfM)
+  rw [rule_selectMany_select w envM seq x gps' fps' _ _ hx2 hx1 hw hr.wfM] at h2
+  exact RLe.trans h2 (op2_transfer (Or.inr (Or.inr rfl)) (src_drel hw (keyFree_arg0 hk) hr) (ih.lamrel hw hr))
+
+theorem ELe.toRLe' (hw : WorldOK w) {e1 e2 : Expr} {E : Env} (hE : EnvLe E E) (h : ELe (denLz w e1 E) (denLz w e2 E)) :
+    RLe (denLz w e1 E) (denLz w e2 E) := fun v hv => ⟨v, h v hv, denLz_wf w hw e1 E hE v hv⟩
+
+/-- `SelectMany(SelectMany(seq, lambda p: fb), selection)`: the second one moves under the first -/
+theorem selectMany_selectMany (hw : WorldOK w) {st : SStack} {source selection seq fb out : Expr} (p : String)
+    (k1 : List String) (k2 : List Expr)
+    (hs : Sem w st source (.call (.name "SelectMany") [seq, .lam [p] fb] k1 k2))
+    (hk : keyFree st (.call (.name "SelectMany") [seq, .lam [p] fb] k1 k2) = true)
+    (hp : p ∉ fv selection)
+    (ih : Sem w st (fcall "SelectMany" [seq, .lam [p] (fcall "SelectMany" [fb, selection])]) out)
+    {envM env : Env} (hr : EnvRel w st envM env) :
+    RLe (denLz w (fcall "SelectMany" [source, selection]) envM) (denLz w out env) := by
+  have hpd := parent_drel hw hs hk hr
+  have h1 : DRel envM envM (denLz w source) (denLz w (fcall "SelectMany" [seq, .lam [p] fb])) := by
+    refine ⟨RLe.trans hpd.1 ?_, denLz_self w hw _ envM hr.wfM⟩
+    rw [den_op_call_kw (Or.inr (Or.inr rfl))]
+    exact denLz_self w hw _ envM hr.wfM
+  have h2 := op2_transfer (op := "SelectMany") (Or.inr (Or.inr rfl)) h1 (selfLam hw selection envM hr.wfM)
+  have h3 := ELe.toRLe' hw hr.wfM (rule_selectMany_selectMany w envM seq [p] fb selection (by simpa using hp))
+  exact RLe.trans h2 (RLe.trans h3 (ih.val envM env hr))
+
+/-! ### `Where` -/
+
+theorem where_true_le (hw : WorldOK w) (parent f' : Expr) (ht : lambdaIsTrue f' = true) (E : Env) (hE : EnvLe E E) :
+    RLe (denLz w (fcall "Where" [parent, f']) E) (denLz w parent E) := by
+  intro out ho
+  rw [denLz_op2 w E "Where" (Or.inr (Or.inl rfl))] at ho
+  cases hs : denLz w parent E with
+  | error e => simp [hs, bind, Except.bind] at ho
+  | ok s =>
+    cases hv : asSeq s with
+    | error e => simp [hs, hv, bind, Except.bind] at ho
+    | ok vs =>
+      have hsl : s = .list vs := by cases s <;> simp [asSeq] at hv; rw [hv]
+      subst hsl
+      simp only [hs, bind, Except.bind, asSeq, seqOp2Lz_where] at ho
+      have hwf := denLz_wf w hw parent E hE _ hs
+      -- the filter is a lambda whose body is the constant True
+      unfold lambdaIsTrue at ht
+      split at ht
+      · rename_i ps
+        have hsingle : ∀ (x : String), ps = [x] → ∃ v', (Except.ok (Val.list vs) : Res) = Except.ok v' ∧ VLe out v' := by
+          intro x hps
+          subst hps
+          have hf : applyLam1 (denLamLz w (.lam [x] (.const (.bool true)))) E = fun _ => .ok (.bool true) := by
+            funext u; simp [denLamLz, applyLam1, denLz, constVal]
+          rw [hf] at ho
+          cases hw' : whereLz (fun _ => Except.ok (Val.bool true)) vs with
+          | error e => rw [hw'] at ho; simp [Except.map] at ho
+          | ok r =>
+            rw [hw'] at ho
+            simp only [Except.map, Except.ok.injEq] at ho
+            have := whr_true vs r hw'
+            simp only [Except.ok.injEq] at this
+            subst this ho
+            exact ⟨_, rfl, hwf⟩
+        have hother : (∀ x, ps ≠ [x]) → ∃ v', (Except.ok (Val.list vs) : Res) = Except.ok v' ∧ VLe out v' := by
+          intro hps
+          have hf : applyLam1 (denLamLz w (.lam ps (.const (.bool true)))) E = fun _ => .error .arity := by
+            funext u
+            match ps, hps with
+            | [], _ => rfl
+            | [x], h => exact absurd rfl (h x)
+            | _ :: _ :: _, _ => rfl
+          rw [hf] at ho
+          cases vs with
+          | nil => simp [whereLz, Except.map] at ho; subst ho; exact ⟨_, rfl, hwf⟩
+          | cons v0 rest =>
+            exfalso
+            simp only [whereLz] at ho
+            cases hfv : force v0 <;> simp [hfv, bind, Except.bind, Except.map] at ho
+        match ps with
+        | [x] => exact hsingle x rfl
+        | [] => exact hother (by intro x h; cases h)
+        | _ :: _ :: _ => exact hother (by intro x h; cases h)
+      · cases ht
+
+theorem where_default (hw : WorldOK w) {st : SStack} {source filter parent f' : Expr}
+    (hs : Sem w st source parent) (ht : Sem w st filter f') {envM env : Env} (hr : EnvRel w st envM env) :
+    RLe (denLz w (fcall "Where" [source, filter]) envM)
+        (denLz w (if lambdaIsTrue f' then parent else fcall "Where" [parent, f']) env) := by
+  have h1 := op2_transfer (op := "Where") (Or.inr (Or.inl rfl)) (hs.drel hw hr) (ht.lamrel hw hr)
+  split
+  · rename_i hlt
+    exact RLe.trans h1 (where_true_le hw parent f' hlt env hr.wf)
+  · exact h1
+
+/-- `Where(Where(src, f), filter)`: one `Where` with the conjunction -/
+theorem where_where (hw : WorldOK w) {st : SStack} {source filter src out : Expr} (fps gps : List String) (fb gb : Expr) (x : String)
+    (k1 : List String) (k2 : List Expr) (prest : List Expr) (hflt : filter = .lam gps gb)
+    (hs : Sem w st source (.call (.name "Where") (src :: .lam fps fb :: prest) k1 k2))
+    (hk : keyFree st (.call (.name "Where") (src :: .lam fps fb :: prest) k1 k2) = true)
+    (hx1 : x ∉ fv (.lam fps fb)) (hx2 : x ∉ fv filter)
+    (ih : Sem w st (fcall "Where" [src, andLam x (.lam fps fb) filter]) out) {envM env : Env} (hr : EnvRel w st envM env) :
+    RLe (denLz w (fcall "Where" [source, filter]) envM) (denLz w out env) := by
+  subst hflt
+  have hpd := parent_drel hw hs hk hr
+  have h1 : DRel envM envM (denLz w source) (denLz w (fcall "Where" [src, .lam fps fb])) := by
+    refine ⟨RLe.trans hpd.1 ?_, denLz_self w hw _ envM hr.wfM⟩
+    apply op_call_cases (Or.inr (Or.inl rfl))
+    exact denLz_self w hw _ envM hr.wfM
+  have h2 := op2_transfer (op := "Where") (Or.inr (Or.inl rfl)) h1 (selfLam hw (.lam gps gb) envM hr.wfM)
+  have h3 := ELe.toRLe' hw hr.wfM (rule_where_where w envM src x gps fps gb fb hx1 hx2)
+  exact RLe.trans h2 (RLe.trans h3 (ih.val envM env hr))
+
+/-- `Where(SelectMany(seq, f), filter)`: the `Where` moves under the `SelectMany` -/
+theorem where_selectMany (hw : WorldOK w) {st : SStack} {source filter seq fb out : Expr} (fps : List String)
+    (k1 : List String) (k2 : List Expr) (prest : List Expr)
+    (hs : Sem w st source (.call (.name "SelectMany") (seq :: .lam fps fb :: prest) k1 k2))
+    (hk : keyFree st (.call (.name "SelectMany") (seq :: .lam fps fb :: prest) k1 k2) = true)
+    (hd : ∀ p ∈ fps, p ∉ fv filter)
+    (ih : Sem w st (fcall "SelectMany" [seq, .lam fps (fcall "Where" [fb, filter])]) out) {envM env : Env} (hr : EnvRel w st envM env) :
+    RLe (denLz w (fcall "Where" [source, filter]) envM) (denLz w out env) := by
+  have hpd := parent_drel hw hs hk hr
+  have h1 : DRel envM envM (denLz w source) (denLz w (fcall "SelectMany" [seq, .lam fps fb])) := by
+    refine ⟨RLe.trans hpd.1 ?_, denLz_self w hw _ envM hr.wfM⟩
+    apply op_call_cases (Or.inr (Or.inr rfl))
+    exact denLz_self w hw _ envM hr.wfM
+  have h2 := op2_transfer (op := "Where") (Or.inr (Or.inl rfl)) h1 (selfLam hw filter envM hr.wfM)
+  have h3 := ELe.toRLe' hw hr.wfM (rule_where_selectMany w envM seq fps fb filter hd)
+  exact RLe.trans h2 (RLe.trans h3 (ih.val envM env hr))
+
+theorem lamrel_of_keyFree (hw : WorldOK w) {st : SStack} {l : Expr} (hk : keyFree st l = true) {envM env : Env}
+    (hr : EnvRel w st envM env) : LamRel envM env (denLamLz w l) (denLamLz w l) := by
+  have ha := hr.coincide_lam l hk
+  have hself := selfLam hw l env hr.wf
+  refine ⟨?_, hself.1, ?_, hself.2.2.1⟩
+  · intro v v' hv hv'; rw [ha.1 v]; exact hself.1 v v' hv hv'
+  · intro a a' v v' h1 h2 h3 h4; rw [ha.2 a v]; exact hself.2.2.1 a a' v v' h1 h2 h3 h4
+
+/-- `Where(Select(src, f), filter)`: filter on the composition first, then map -/
+theorem where_select (hw : WorldOK w) {st : SStack} {source filter src f conv wexp out : Expr} (k1 : List String) (k2 : List Expr)
+    (prest : List Expr)
+    (hs : Sem w st source (.call (.name "Select") (src :: f :: prest) k1 k2))
+    (hk : keyFree st (.call (.name "Select") (src :: f :: prest) k1 k2) = true)
+    (hc : ConvOK st filter f conv) (ihw : Sem w st conv wexp)
+    (hkr : keyFree st (makeSelect (fcall "Where" [src, wexp]) f) = true)
+    (ih2 : Sem w st (makeSelect (fcall "Where" [src, wexp]) f) out) {envM env : Env} (hr : EnvRel w st envM env) :
+    RLe (denLz w (fcall "Where" [source, filter]) envM) (denLz w out env) := by
+  have hconv := conv_fnle hw hc envM hr.wfM
+  obtain ⟨gps, gb, fps, fb, gps', fps', x, rfl, rfl, hf1, hf2, rfl, hx1, hx2, hxg, hxf⟩ := hc.shape
+  have hpd := parent_drel hw hs hk hr
+  have h1 : DRel envM envM (denLz w source) (denLz w (fcall "Select" [src, .lam fps fb])) := by
+    refine ⟨RLe.trans hpd.1 ?_, denLz_self w hw _ envM hr.wfM⟩
+    apply op_call_cases (Or.inl rfl)
+    exact denLz_self w hw _ envM hr.wfM
+  have h2 := op2_transfer (op := "Where") (Or.inr (Or.inl rfl)) h1 (selfLam hw (.lam gps gb) envM hr.wfM)
+  rw [rule_where_select w envM src x gps fps gb fb hxf hxg hw hr.wfM] at h2
+  -- the composition with the original lambdas is refined by the one `convolute` built, and that by its simplification
+  have hcomp : LamRel envM env (denLamLz w (convLam x (.lam gps gb) (.lam fps fb))) (denLamLz w wexp) := by
+    have hself := selfLam hw wexp env hr.wf
+    refine ⟨?_, hself.1, fun _ _ _ _ _ _ _ _ => RLe.error _ _, hself.2.2.1⟩
+    have e1 : applyLam1 (denLamLz w (convLam x (.lam gps gb) (.lam fps fb))) envM =
+        fun u => applyLam1 (denLamLz w (.lam fps fb)) envM u >>= applyLam1 (denLamLz w (.lam gps gb)) envM :=
+      funext (convLam_sem w envM x gps fps gb fb hxf hxg)
+    rw [e1]
+    exact FnLe.trans hconv (ihw.lam1 envM env hr)
+  have hsrcK : keyFree st src = true := keyFree_arg0 hk
+  have hfK : keyFree st (.lam fps fb) = true := keyFree_arg1 hk
+  have h3 : RLe (denLz w (fcall "Select" [fcall "Where" [src, convLam x (.lam gps gb) (.lam fps fb)], .lam fps fb]) envM)
+      (denLz w (fcall "Select" [fcall "Where" [src, wexp], .lam fps fb]) env) := by
+    apply op2_transfer (Or.inl rfl) _ (lamrel_of_keyFree hw hfK hr)
+    exact ⟨op2_transfer (Or.inr (Or.inl rfl)) (src_drel hw hsrcK hr) hcomp, denLz_self w hw _ env hr.wf⟩
+  have h4 := makeSelect_le hw (fcall "Where" [src, wexp]) (.lam fps fb) env hr.wf
+  rw [← hr.coincide _ hkr] at h4
+  exact RLe.trans h2 (RLe.trans h3 (RLe.trans h4 (ih2.val envM env hr)))
 
 end Fadl
